@@ -35,24 +35,34 @@ from fractions import Fraction
 
 from .. import pymodel
 from .common import (BIG_FORMS, Kept, dtype_probe, as_params, as_t, as_x, build_both, compare_errors, fl, freeze, lean_assemble, mpf, mpf_s, multiset_close,
-                     net_oracle, spec_oracle, sym_vs_lean, vec_close)
+                     NAMED_TRAPS, net_oracle, net_oracle_bounds, printer_check, scaled_close, wide_tags, spec_oracle, sym_vs_lean, vec_close)
 
 PROP = "C01"
 LEAN = {"module": "Pygom.Props.C01",
         "required": ["Pygom.C01.ode_entry", "Pygom.C01.vmat_entry", "Pygom.C01.rate_entry", "Pygom.C01.pure_entry",
                      "Pygom.C01.ode_eq_vmat_mul_rates", "Pygom.C01.reactant_entry", "Pygom.C01.derived_subst",
                      "Pygom.C01.stateIndex_error_iff", "Pygom.C01.assemble_spec", "Pygom.C01.resolveEvents_wf"]}
-BUDGET = {"quick": {"models": 160, "cython": 3, "malformed": 24},
-          "thorough": {"models": 3000, "cython": 40, "malformed": 300}}
+BUDGET = {"quick": {"models": 160, "wide": 70, "cython": 3, "malformed": 24},
+          "thorough": {"models": 3000, "wide": 900, "cython": 40, "malformed": 300}}
 RULE = ("random model definitions (1-5 states incl. range-style names, 1-5 params, 0-5 events of 1-3 B/D/T transitions, numeric "
         "and symbolic magnitudes, linear/mass-action/saturating/exponential/time-periodic rates, explicit ODE terms, derived "
         "parameters, every API route) + a malformed stream; per model 4 points (one integer valued with zero states) in varied "
         "container / dtype forms, all evaluator results kept and re-judged after the later calls, parameter re-assignment and "
         "restoration at a fixed (x,t), a permuted / redefined second instance built in stages and evaluated alternately, a deep "
-        "copy; a case is non-trivial when it has >=1 event and a non-zero ODE value")
+        "copy; a case is non-trivial when it has >=1 event and a non-zero ODE value.  WIDE input space (tag `wide`, a fixed number of "
+        "cases per tier): state / parameter / derived names that collide with Python locals, builtins, sympy and numpy names and with "
+        "each other as prefixes (i, j, k, n, e, s/i/r, S, I, E, N, Q, O, C, beta/beta1/betaS, gamma, zeta, pi, exp, Max, len, S1/S10 ...: "
+        "those the unchanged pygom accepts); compound magnitudes (1 - p, n0 + n1, 2*k, k/2, -k, p*(1 - q), k**2) and magnitudes / derived "
+        "parameters that contain a STATE (vMat is then judged as vMat(x,t)); the strings handed to pygom written as a user would "
+        "(natural operator precedence without redundant parentheses, extra blanks, ** powers, unary minus, 1e-3 / 0.25 / 1/3 / "
+        "Rational literals - tag `syntax:*`; the printer is checked per case against Python's own grammar); 8-12 states, 8-12 parameters "
+        "or 8-12 events in every twelfth wide case each; one extra point with parameters 1e-9..1e8 and states 1e-3..1e6 judged "
+        "relatively PER ENTRY against a cancellation-aware bound (no absolute floor)")
 ASSUMPTIONS = ["sympy parser/subs and lambdify/autowrap are translation-validated per case, not proved",
                "identity of expressions is decided by exact evaluation at 3 random rational points (50 digits)"]
-TRUSTED = ["harness generator, AST printer (exprs.to_str) and interpreter (exprs.ev)", "Lean driver JSON codec"]
+TRUSTED = ["harness generator, AST printer (exprs.to_str) and interpreter (exprs.ev)", "Lean driver JSON codec",
+           "natural-precedence printer exprs.user_str (checked on every case it is used for against Python's own parser, exprs.python_value)",
+           "exprs.ev_bound (cancellation-aware scale of the direct oracle's tolerance)"]
 
 
 def malform(rng, spec, meta):
@@ -116,6 +126,25 @@ def points_for(r, meta, n=N_POINTS):
     return pts
 
 
+def wide_options(r, i):
+    """the widened input space of wide case number i (see RULE); every twelfth case is a large model of each kind"""
+    w = {"names": r.random() < 0.75, "mags": r.random() < 0.75, "state_mags": 0.35, "derived_states": 0.5 if r.random() < 0.6 else 0.0,
+         "consts": r.random() < 0.6, "syntax": r.random() < 0.85}
+    if i % 12 in (3, 7, 11):
+        w["size"] = {3: "many_states", 7: "many_params", 11: "many_events"}[i % 12]
+    return w
+
+
+def wide_case(r, i, backend="lambda"):
+    w = wide_options(r, i)
+    spec, meta = gen.gen_model(r, wide=w)
+    pts = points_for(r, meta)
+    probe = probe_for(r, spec, meta, pts)
+    probe["extreme"] = {k: str(v) for k, v in gen.rand_point_extreme(r, meta).items()}
+    return {"spec": spec, "meta": meta, "points": [{k: str(v) for k, v in p.items()} for p in pts], "backend": backend,
+            "malformed": None, "probe": probe, "wide": w}
+
+
 def make_cases(rng, tier, budget):
     cases = []
     for i in range(budget["models"]):
@@ -130,6 +159,13 @@ def make_cases(rng, tier, budget):
         spec, meta = gen.gen_model(r, min_events=1)
         spec2, kind = malform(r, spec, meta)
         cases.append({"spec": spec2, "meta": meta, "points": [], "backend": "lambda", "malformed": kind})
+    # the wide cases are drawn AFTER the classic ones (whose random stream is what it was) and spread over the run
+    wide = []
+    for i in range(budget.get("wide", 0)):
+        wide.append(wide_case(random.Random(rng.getrandbits(64)), i))
+    step = max(1, len(cases) // max(1, len(wide)))
+    for k, c in enumerate(wide):
+        cases.insert(min(len(cases), k * (step + 1)), c)
     return cases
 
 
@@ -141,6 +177,8 @@ def search_cases(rng, tier, budget):
         pts = points_for(r, meta)
         out.append({"spec": spec, "meta": meta, "points": [{k: str(v) for k, v in p.items()} for p in pts],
                     "backend": "lambda", "malformed": None, "probe": probe_for(r, spec, meta, pts)})
+    for i in range(budget.get("wide", 0) * 3):
+        out.append(wide_case(random.Random(rng.getrandbits(64)), i))
     return out
 
 
@@ -178,7 +216,7 @@ class Session(object):
             self.model = pymodel.build(spec, backend=backend, upto=0)
             self.touch(touch_env, 0)
             for k in range(n_then):
-                pymodel.apply_then(self.model, spec["then"][k])
+                pymodel.apply_then(self.model, spec["then"][k], sx=spec.get("syntax"))
                 partner.touch(touch_env, None)
                 self.touch(touch_env, k + 1)
             for g in ("get_ode_eqn", "get_StateChangeMatrix", "get_EventRateVector", "get_pureOdeVector"):
@@ -268,6 +306,9 @@ class Session(object):
         if meta["derived"]: tags.append("has_derived")
         if any(":" in str(x) for x in (spec["state"].get("list") or [spec["state"].get("str")])): tags.append("range_names")
         tags.append("backend:" + case.get("backend", "lambda"))
+        if case.get("wide") is not None and not self.who:
+            tags += wide_tags(spec, meta, case["wide"], NAMED_TRAPS)
+            tags.append("nP=%d" % len(params))
         self.symbolic()
         lam = model.get_ReactantMatrix()
         lam_l = lr["react_cols"]
@@ -330,7 +371,7 @@ class Session(object):
         try:
             lean = {"ode": [E.ev(e, env) for e in lr["ode"]], "vMat": [[E.ev(e, env) for e in col] for col in lr["vmat_cols"]],
                     "eventRateVector": [E.ev(e, env) for e in lr["rates"]], "pureOdeVector": [E.ev(e, env) for e in lr["pure"]]}
-            f_o, V_o, a_o, p_o = net_oracle(meta, spec, env)
+            (f_o, V_o, a_o, p_o), bounds = net_oracle_bounds(meta, spec, env)
             if not self.steps:
                 # the two references of the harness (abstract process set / API-level spec) must agree
                 f_s = spec_oracle(spec, states, env)[0] if all(o["op"] in pymodel.SETTER for o in spec.get("then", [])) else f_o
@@ -341,10 +382,62 @@ class Session(object):
             return True
         if any(abs(v) > 1e-12 for v in lean["ode"]):
             self.nonzero = True
-        st = {"label": label, "pt": pt, "vals": vals, "lean": lean, "oracle": (f_o, V_o, a_o, p_o), "first_row": len(self.kept.rows) - 4}
+        st = {"label": label, "pt": pt, "vals": vals, "lean": lean, "oracle": (f_o, V_o, a_o, p_o), "bounds": bounds, "first_row": len(self.kept.rows) - 4}
         self.steps.append(st)
         self.judge(st, vals, "")
         return len(mism) + len(viol) == n0
+
+    def printer_check(self, env):
+        printer_check(self.spec, env, self.mism, self.tags)
+
+    def extreme(self, env):
+        """one point with very small and very large values (parameters 1e-9..1e8, states 1e-3..1e6): every entry of ode /
+        vMat / eventRateVector / pureOdeVector is judged RELATIVELY against the cancellation-aware bound of the direct oracle
+        (no absolute floor); the Lean expressions are judged the same way"""
+        if self.dead or self.mism or self.viol:
+            return True
+        nS, nE, model = self.nS, self.nE, self.model
+        pt = {k: str(v) for k, v in env.items()}
+        try:
+            (f_o, V_o, a_o, p_o), (Bf, BV, Ba, Bp) = net_oracle_bounds(self.meta, self.spec, env)
+            lean = {"ode": [E.ev(e, env) for e in self.lr["ode"]], "eventRateVector": [E.ev(e, env) for e in self.lr["rates"]],
+                    "pureOdeVector": [E.ev(e, env) for e in self.lr["pure"]]}
+        except (E.Undefined, ZeroDivisionError, OverflowError):
+            self.tags.append("extreme:undefined_point")
+            return True
+        try:
+            model.parameters = fl(env, self.params)
+            self.cur = {p: env[p] for p in self.params}
+            x, t = fl(env, self.states), float(env["t"])
+            with np.errstate(all="ignore"):
+                f_n = np.array(model.ode(x, t), float).ravel()
+                p_n = np.array(model.pureOdeVector(x, t), float).ravel()
+                a_n = np.array(model.eventRateVector(x, t), float).ravel() if nE > 0 else np.zeros(0)
+                V_n = np.array(model.vMat(x, t), float).reshape(nS, nE) if nE > 0 else np.zeros((nS, 0))
+        except Exception as exc:
+            if nE == 0:
+                return True
+            self.viol.append({"what": "evaluator raised %s at a point with very small / very large values: %s" % (type(exc).__name__, str(exc)[:200]),
+                              "signature": "evaluator-raise:%s:extreme" % type(exc).__name__, "detail": json.dumps(pt)})
+            return False
+        self.tags.append("extreme_point")
+        sg = lambda w: "extreme:" + sig(self.meta, w)
+        pre = "[parameters 1e-9..1e8, states 1e-3..1e6; relative per entry] "
+        if not (scaled_close(lean["ode"], f_o, Bf) and scaled_close(lean["pureOdeVector"], p_o, Bp)):
+            self.mism.append({"what": "extreme:lean-vs-oracle", "detail": "lean ode %s oracle %s at %s" % ([mpf_s(v) for v in lean["ode"]], [mpf_s(v) for v in f_o], pt)})
+        if not scaled_close(f_n, f_o, Bf):
+            self.viol.append({"what": pre + "ode(x,t) != sum rate*net + explicit terms", "signature": sg("ode"),
+                              "detail": "ode=%s expected=%s bound=%s at %s" % (list(f_n), [mpf_s(v) for v in f_o], [mpf_s(v) for v in Bf], pt)})
+        if not scaled_close(p_n, p_o, Bp):
+            self.viol.append({"what": pre + "pureOdeVector(x,t) != explicit terms", "signature": sg("pure"),
+                              "detail": "pure=%s expected=%s at %s" % (list(p_n), [mpf_s(v) for v in p_o], pt)})
+        # (rate, column) pairs as a multiset: greedy matching with the per-entry bounds of the expected pair
+        okp = pairs_close(a_n, [V_n[:, k] for k in range(nE)], a_o, V_o, Ba, BV)
+        if not okp:
+            self.viol.append({"what": pre + "(eventRateVector, vMat column) pairs != declared (rate, magnitudes)", "signature": sg("rates+vmat"),
+                              "detail": "rates=%s vMat=%s expected rates=%s columns=%s at %s" % (list(a_n), V_n.tolist(), [mpf_s(v) for v in a_o],
+                                                                                              [[mpf_s(v) for v in c] for c in V_o], pt)})
+        return not (self.mism or self.viol)
 
     def keep_params(self, env):
         """(x, t) of `env` with the parameter values this instance currently holds"""
@@ -403,22 +496,25 @@ class Session(object):
             if not vec_close(p_n, lean["pureOdeVector"]): mism.append({"what": "pureOdeVector(x,t)", "detail": "python %s lean %s" % (list(p_n), [mpf_s(v) for v in lean["pureOdeVector"]])})
             if not all(vec_close(c1, c2) for c1, c2 in zip(Vn_cols, lean["vMat"])):
                 mism.append({"what": "vMat(x,t)", "detail": "python %s lean %s" % (Vn_cols, [[mpf_s(v) for v in c] for c in lean["vMat"]])})
-        # direct oracle, no Lean: the property itself
-        if not vec_close(f_n, f_o):
+        # direct oracle, no Lean: the property itself.  Every entry is judged RELATIVELY against the cancellation-aware bound of
+        # the oracle's own terms (common.net_oracle_bounds): no absolute floor, so an entry of size 1e-9 (or a rate
+        # a*exp(-b*X) of size 1e-40) is held to 9 digits like any other
+        Bf, BV, Ba, Bp = st["bounds"]
+        if not scaled_close(f_n, f_o, Bf):
             viol.append({"what": pre + "ode(x,t) != sum rate*net + explicit terms", "signature": sg(sig(meta, "ode")),
                          "detail": "ode=%s expected=%s at %s" % (list(f_n), [mpf_s(v) for v in f_o], pt)})
-        if not vec_close(p_n, p_o):
+        if not scaled_close(p_n, p_o, Bp):
             viol.append({"what": pre + "pureOdeVector(x,t) != explicit terms", "signature": sg(sig(meta, "pure")),
                          "detail": "pure=%s expected=%s at %s" % (list(p_n), [mpf_s(v) for v in p_o], pt)})
         # event order depends on the route (constructor keywords are processed event, transition, birth_death,
         # then add_* calls), so rates and columns are compared as a multiset of (rate, column) pairs
         got = sorted([[float(a_n[j])] + [float(v) for v in Vn_cols[j]] for j in range(nE)])
         exp = sorted([[float(a_o[j])] + [float(v) for v in V_o[j]] for j in range(len(a_o))])
-        if not multiset_close(got, exp):
+        if not pairs_close(a_n, Vn_cols, a_o, V_o, Ba, BV):
             viol.append({"what": pre + "(eventRateVector, vMat column) pairs != declared (rate, magnitudes)", "signature": sg(sig(meta, "rates+vmat")),
                          "detail": "got=%s expected=%s at %s" % (got, exp, pt)})
         recon = V_n.dot(a_n) + p_n if nE > 0 else p_n
-        if not vec_close(f_n, recon, rel=1e-8, abs_=1e-9):
+        if not scaled_close(f_n, [mpf(float(v)) for v in recon], Bf, rel=1e-8):
             viol.append({"what": pre + "ode != vMat . eventRateVector + pureOdeVector", "signature": sg(sig(meta, "recon")),
                          "detail": "ode=%s V.a+p=%s at %s" % (list(f_n), list(recon), pt)})
 
@@ -476,6 +572,7 @@ def run_case(case):
     if not A.open():
         return A.result
     ok = True
+    A.printer_check(pts[0])
     for k, env in enumerate(pts):
         ok = A.step(env, forms[k], "point%d" % k, symbolic=True)
         if not ok:
@@ -488,6 +585,8 @@ def run_case(case):
         A.viol += v_; A.tags += tg_
         A.cur = {p: envb[p] for p in A.params}
         ok = not A.viol
+    if ok and probe.get("extreme"):
+        ok = A.extreme({k: Fraction(v) for k, v in probe["extreme"].items()})
     if ok and probe and len(pts) >= 2:
         # history on one instance: same (x, t) as point 0 with the parameter values of point 1, then the first values again
         env_r = dict(pts[0]); env_r.update({p: pts[1][p] for p in A.params})
@@ -542,6 +641,23 @@ def run_case(case):
         if B.viol or B.mism:
             r["sample"] = {"first": spec, "second": B.spec}
     return r
+
+
+def pairs_close(a_n, V_cols_n, a_o, V_o, Ba, BV):
+    """the (rate, state-change column) pairs of the real model equal the declared ones as a multiset; greedy matching, every
+    entry relative to the bound of the expected entry (no absolute floor)"""
+    n = len(a_o)
+    if len(a_n) != n:
+        return False
+    used = [False] * n
+    for j in range(n):
+        for k in range(n):
+            if not used[k] and scaled_close([a_n[k]], [a_o[j]], [Ba[j]]) and scaled_close(V_cols_n[k], V_o[j], BV[j]):
+                used[k] = True
+                break
+        else:
+            return False
+    return True
 
 
 def sig(meta, what):
